@@ -27,6 +27,7 @@ type Canary struct {
 	TokKeep  string
 	TokStdin string
 	envSnap  []string
+	clean    string
 }
 
 const (
@@ -99,6 +100,32 @@ func sortedEnv() []string {
 	e := os.Environ()
 	sort.Strings(e)
 	return e
+}
+
+// stamp summarises the canary directory cheaply (5 stat calls): any creation, removal or
+// modification below it changes a directory or file modification time or size.
+func (c *Canary) stamp() string {
+	var sb strings.Builder
+	for _, p := range []string{c.Dir, c.Cwd, c.Secret, c.Existing, c.Pwned} {
+		st, err := os.Lstat(p)
+		if err != nil {
+			sb.WriteString("absent;")
+			continue
+		}
+		fmt.Fprintf(&sb, "%d,%d,%v;", st.ModTime().UnixNano(), st.Size(), st.Mode())
+	}
+	return sb.String()
+}
+
+// Snapshot records the clean state; ObserveFilesFast only does the full comparison when the
+// cheap stamp differs from the snapshot.
+func (c *Canary) Snapshot() { c.clean = c.stamp() }
+
+func (c *Canary) ObserveFilesFast() (effects []string, detail []string) {
+	if c.clean != "" && c.stamp() == c.clean {
+		return nil, nil
+	}
+	return c.ObserveFiles()
 }
 
 // ObserveFiles reports file-system effects inside the canary directory.
